@@ -536,6 +536,8 @@ pub fn alltags(a: &Args) -> Report {
         Ok(s) => s,
         Err(_) => continue,
       };
+      // a worker copy refreshed in place (`Clone::clone_from`) after every epoch
+      let mut worker = s.clone();
       for (k, md) in order.iter().enumerate() {
         if !matches!(guard(|| s.puncture(*md)), Guard::Done(Ok(()))) {
           rep.violation("C14", "Server::puncture", "rotation:puncture-refused",
@@ -543,6 +545,18 @@ pub fn alltags(a: &Args) -> Report {
           break;
         }
         rep.evaluations += 1;
+        if guard(|| worker.clone_from(&s)).is_panic() {
+          rep.violation("C14", "Server::clone_from", "rotation:clone-from-panicked", "clone_from panicked".into(), json!({"order": oname, "step": k}));
+        } else {
+          for t in [*md, order[(k + 1) % 256], order[(k + 9) % 256], order[255]] {
+            if ans(&worker, t) != ans(&s, t) {
+              rep.violation("C14", "Server::clone_from", "rotation:refreshed-copy-differs",
+                format!("after {} punctures ({oname}) a copy refreshed with clone_from and its source disagree on tag {t}", k + 1),
+                json!({"order": oname, "step": k, "tag": t}));
+              break;
+            }
+          }
+        }
         let bytes = export_bytes(&s);
         match guard(|| import_server(&bytes)) {
           Guard::Done(Some(replica)) => {
